@@ -156,11 +156,11 @@ def rule_R1(ctx, prj, fi: FuncInfo, sites):
                      f"site(s) apply: overlapping matches are reported when several attempts are alive here")
 
 
-def rule_R2(ctx, prj, fi: FuncInfo, sites):
+def rule_R2(ctx, prj, fi: FuncInfo, sites, structural=True):
     ctx.rule("R2", "a reported match's end is the exclusive end: the index of the first item not consumed (the enumerate "
-                   "index in the main loop, len(sequence) after it), and get_headers uses it as such", floor=4)
+                   "index in the main loop, len(sequence) after it), and get_headers uses it as such", floor=2)
     seq = fi.params()[1] if len(fi.params()) > 1 else "sequence"
-    for i, c in enumerate(sites):
+    for i, c in enumerate(sites if structural else []):
         var = unparse(c.args[0])
         loops = enclosing(fi, c, ast.For)
         idx = None
@@ -330,7 +330,42 @@ def run(ctx, prj: Project):
     ctx.not_decided = ["each reported match is a word of the language and the longest from its start (algorithmic)",
                        "every position from which greedy matching succeeds is covered (algorithmic)"]
     fi = prj.func(f"{GSM}.matcher:find_all")
+    from ..absint import PyRaise, Unknown
+    from .. import findall_model
+    ctx.rule("R6", "control logic of find_all: evaluated on a sequence of n symbolic items with abstract attempts (whether an "
+                   "attempt is accepting / has no outgoing transition / consumes the next item is answered by an oracle, all "
+                   "answer combinations enumerated), find_all reports exactly the matches the property requires: in start "
+                   "order, disjoint (also at the end of input), only accepting attempts that cannot continue, end = first "
+                   "item not consumed", floor=1)
+    explored = None
+    try:
+        plan = [(2, False), (3, True)] if ctx.tier != "thorough" else [(2, False), (3, False)]
+        div = None
+        for n, no_dead in plan:
+            count, div = findall_model.explore(prj, n, no_dead=no_dead)
+            explored = (n, count)
+            if div is not None:
+                break
+            ctx.ok("R6", fi.site(), f"find_all agrees with the reference on all {count} abstract scenarios for sequences of {n} items"
+                                    + (" (states without outgoing transitions excluded)" if no_dead else ""))
+            ctx.obligations += count
+            ctx.discharged += count
+        if div is not None:
+            got, want = div["got"], div["want"]
+            kind = "overlap" if isinstance(got, list) and any(a[1] > b[0] for a, b in zip(got, got[1:])) else \
+                "order" if isinstance(got, list) and got != sorted(got) else \
+                "end" if isinstance(got, list) and [g[0] for g in got] == [w[0] for w in want] else "selection"
+            ctx.viol("R6", f"find_all/{kind}", fi.site(), findall_model.describe(div))
+    except (Unknown, PyRaise) as e:
+        ctx.info(f"find_all not evaluable on the abstract model ({e}); falling back to the structural rules")
     sites = _append_sites(fi)
+    if explored is not None:
+        rule_R2(ctx, prj, fi, sites, structural=False)
+        rule_R3(ctx, prj)
+        return
+    ctx.rule("R6", "not evaluable: structural rules R1, R2, R4, R5 apply instead", floor=0)
+    ctx.ok("R6", fi.site(), "fallback to structural rules")
+
     if len(sites) < 2:
         raise AnalysisError(f"find_all: only {len(sites)} result-append site(s) recognised (3 confirmed by reading)")
     rule_R1(ctx, prj, fi, sites)
